@@ -63,6 +63,7 @@ def gen(rng, tier):
             else:
                 c = [camx.gen_uamiv_read_domain, camx.gen_uamiv_one_day, camx.gen_uamiv_emis2d][sub](rng)
             c['family'] = 'uamiv'
+            c['sibling'] = rng.random() < 0.5
         else:
             # every format with every kind of time axis on every run: the format cycles with the case number, the
             # step class (hourly / 12 h / whole days / 6 h) with the round
@@ -110,9 +111,20 @@ def impl(case):
         if case['family'] == 'uamiv':
             b = camx.ref_encode_uamiv(case)
             res = dict(hex=b.hex())
+            if case.get('sibling') and len(case['species']) >= 2:
+                # another file of the same grid with the same species in another order is opened first in this process: what
+                # the readers say about this file must not depend on it
+                sib = dict(case, species=case['species'][1:] + case['species'][:1])
+                try:
+                    camx.read_with_library(camx.ref_encode_uamiv(sib), 'memmap')
+                    camx.read_with_library(camx.ref_encode_uamiv(sib), 'read')
+                except lib.HarnessError:
+                    raise
+                except Exception:
+                    pass
             for which in ('memmap', 'read'):
                 try:
-                    with lib.time_limit(20):
+                    with lib.time_limit(8):
                         res[which] = camx.read_with_library(b, which)
                 except lib.HarnessError:
                     raise
